@@ -38,6 +38,12 @@ class _FileProxy:
         self._pending = []
 
     def write(self, data):
+        if self._fs.real_death:
+            # validation mode (real child process): nothing is modelled - the real file object does its own buffering; only
+            # remember that something is pending so that flush / close is counted as the landing operation
+            self._pending.append(data[:0])
+            self._npending = getattr(self, "_npending", 0) + len(data)
+            return self._real.write(data)
         if not self._fs.dead:
             self._pending.append(data)
         return len(data)
@@ -83,7 +89,8 @@ class _Sink:
 
 
 class FaultFS:
-    def __init__(self, root, plan=None):
+    def __init__(self, root, plan=None, real_death=False):
+        self.real_death = real_death  # the process really dies (os._exit) and files are really buffered by CPython
         self.root = os.path.realpath(root)
         self.plan = plan  # (k, variant, t) or None
         self.ops = []     # trace of mutating operations: (kind, relpath, size)
@@ -113,6 +120,8 @@ class FaultFS:
 
     def _die(self):
         self.dead = True
+        if self.real_death:
+            os._exit(77)
         raise ProcessDied()
 
     # ---- wrapped primitives
@@ -142,6 +151,15 @@ class FaultFS:
             return
         chunks, proxy._pending = proxy._pending, []
         if self.dead:
+            return
+        if self.real_death:
+            n, proxy._npending = getattr(proxy, "_npending", 0), 0
+            v = self._next("write", proxy._path, n)
+            if v == "die-before":
+                self._die()          # the bytes are still in CPython's buffer: lost
+            proxy._real.flush()
+            if v == "die-after":
+                self._die()
             return
         data = chunks[0][:0].join(chunks)
         v = self._next("write", proxy._path, len(data))
